@@ -477,7 +477,10 @@ def server_layer(ctx, buffered: bool, rng: random.Random, witness: dict) -> str 
     grid = [0.0, 0.25, 0.5, 1.0]
     script = [(rng.choice(grid + [-1, -2]), p) for p in pieces]
     plan_modes = [(rng.choice(["yield", "yield", "timeout-scope", "move-on-scope"]), rng.choice(grid)) for _ in range(64)]
-    witness.update({"lines": lines, "script": [(d, len(p)) for d, p in script], "modes": plan_modes[:12]})
+    # raw: the generator is the low-level handler itself; handle / on_connection: the same generator is the handle() or the
+    # on_connection() of a high-level AsyncStreamRequestHandler run through servers.misc.build_lowlevel_stream_server_handler
+    via = rng.choice(["raw", "raw", "handle", "on_connection"])
+    witness.update({"lines": lines, "script": [(d, len(p)) for d, p in script], "modes": plan_modes[:12], "via": via})
     got: list = []
     state = {"timeouts": 0, "cancels_in_scope": 0, "errors": []}
 
@@ -513,6 +516,34 @@ def server_layer(ctx, buffered: bool, rng: random.Random, witness: dict) -> str 
             finally:
                 done.set()
 
+        low_handler = handler
+        if via != "raw":
+            import contextlib
+
+            from checks.c15 import _Client
+            from easynetwork.servers.handlers import AsyncStreamRequestHandler
+            from easynetwork.servers.misc import build_lowlevel_stream_server_handler
+
+            async def _idle(client):
+                while True:
+                    yield
+
+            class H(AsyncStreamRequestHandler):
+                def on_connection(self_inner, client):
+                    return low_handler(client) if via == "on_connection" else _noop()
+
+                def handle(self_inner, client):
+                    return low_handler(client) if via == "handle" else _idle(client)
+
+            async def _noop():
+                return None
+
+            @contextlib.asynccontextmanager
+            async def initializer(low):
+                yield _Client(low)
+
+            handler = build_lowlevel_stream_server_handler(initializer, H())  # type: ignore[assignment]
+            ctx.count(f"server_receiver_via_{via}")
         serve = asyncio.ensure_future(server.serve(handler))
         listener.connect(m)
         feed = asyncio.ensure_future(memtransport.feeder(m.incoming, script))
